@@ -125,6 +125,7 @@ EnumNames(et) ==
     [] et = "OptimizeMode" -> {"SPEED", "CODE_SIZE", "LITE_RUNTIME"}
     [] et = "Retention"    -> {"RETENTION_UNKNOWN", "RETENTION_RUNTIME", "RETENTION_SOURCE"}
     [] et = "Idempotency"  -> {"IDEMPOTENCY_UNKNOWN", "NO_SIDE_EFFECTS", "IDEMPOTENT"}
+    [] et = "TargetType"   -> {"TARGET_TYPE_FILE", "TARGET_TYPE_FIELD"}      \* (two of the declared names)
     [] OTHER -> {}
 ENumName(neg, s) == CASE ~neg /\ s = "0" -> "E_ZERO" [] ~neg /\ s = "1" -> "E_ONE"
                       [] neg /\ s = "1" -> "E_NEG" [] OTHER -> ""
@@ -157,15 +158,17 @@ CustomTop == { F("x_" \o t, t, ValT(t), "one", TRUE, "x_" \o t) : t \in ValueTyp
 (* standard options of each kind that take scalar / enum values; json_name and default are the
    field pseudo-options (the host field is  optional int32)                                      *)
 Std(n, t, mt) == F(n, t, mt, "one", FALSE, "std." \o n)
+StdRep(n, t, mt) == F(n, t, mt, "rep", FALSE, "std." \o n)     \* a repeated standard option
 StdTop(kind) ==
   CASE kind = "file"      -> { Std("deprecated", "bool", ""), Std("java_package", "string", ""),
                                Std("optimize_for", "enum", "OptimizeMode"), Std("cc_enable_arenas", "bool", "") }
     [] kind = "message"   -> { Std("deprecated", "bool", ""), Std("no_standard_descriptor_accessor", "bool", "") }
     [] kind = "field"     -> { Std("deprecated", "bool", ""), Std("debug_redact", "bool", ""),
-                               Std("retention", "enum", "Retention"),
+                               Std("retention", "enum", "Retention"), StdRep("targets", "enum", "TargetType"),
                                Std("json_name", "string", ""), Std("default", "int32", "") }
     [] kind = "extension" -> { Std("deprecated", "bool", ""), Std("debug_redact", "bool", ""),
-                               Std("retention", "enum", "Retention"), Std("default", "int32", "") }
+                               Std("retention", "enum", "Retention"), StdRep("targets", "enum", "TargetType"),
+                               Std("default", "int32", "") }
     [] kind = "enum"      -> { Std("deprecated", "bool", "") }
     [] kind = "enumvalue" -> { Std("deprecated", "bool", ""), Std("debug_redact", "bool", "") }
     [] kind = "service"   -> { Std("deprecated", "bool", "") }
